@@ -55,6 +55,9 @@ pub fn classify(case: &Case, prog: &Prog, cx: &mut Cx) {
     cx.class_if(st.hops_carry > 0, "thread-hop-carried-frame");
     cx.class_if(st.hops_bare > 0, "thread-hop-no-frame");
     cx.class_if(st.hops_future > 0, "thread-hop-in-future");
+    cx.class_if(st.handoffs > 0, "own-frame-handoff");
+    cx.class_if(st.handoff_enabled_with_descendants, "own-frame-handoff-enabled-with-descendants");
+    cx.class_if(st.handoff_disabled_with_descendants, "own-frame-handoff-disabled-with-descendants");
     cx.class_if(string_ids, "string-ids");
     cx.class_if(matches!(case.incoming, Some(Incoming { form: IdForm::Int, .. })), "integer-ids");
     cx.class_if(matches!(case.incoming, Some(Incoming { form: IdForm::Typed, .. })), "typed-ids");
